@@ -110,38 +110,51 @@ theorem mem_ledgerOf_of_mem {p : Params} {own : Own} {chain : List Block} {u : U
 
 -- ------------------------------------------------------------------ the maturity test
 
-/-- the maturity the wallet stores (32-bit field) is the consensus lock of the class, under the bounds -/
+/-- the lock of a class fits the 32-bit field, under the bound on staking periods -/
+theorem clsMaturity_lt (x : SCoin) (hstk : ∀ f, x.cls = .stk f → f + 1 < 2^32) :
+    x.cls.maturity < 2^32 := by
+  cases hk : x.cls with
+  | stk f => exact hstk f hk
+  | bindNew t => simp [Cls.maturity, bindingLockedPeriod]
+  | std => simp [Cls.maturity]
+  | bindOld t => simp [Cls.maturity]
+  | raw => simp [Cls.maturity]
+
+/-- the maturity the wallet stores (32-bit field) is the consensus lock of the class (for a coinbase output:
+    the larger of the coinbase maturity and that lock), under the bounds -/
 theorem maturity_fits (p : Params) (x : SCoin) (hcb : p.cbMaturity < 2^32)
     (hstk : ∀ f, x.cls = .stk f → f + 1 < 2^32) :
-    (if x.cb then p.cbMaturity else x.cls.maturity) % 2^32 = (if x.cb then p.cbMaturity else x.cls.maturity) := by
+    (if x.cb then max p.cbMaturity x.cls.maturity else x.cls.maturity) % 2^32 =
+      (if x.cb then max p.cbMaturity x.cls.maturity else x.cls.maturity) := by
   apply Nat.mod_eq_of_lt
+  have hm := clsMaturity_lt x hstk
   by_cases hc : x.cb = true
-  · simp only [hc, if_true]; exact hcb
-  · simp only [hc, Bool.false_eq_true, if_false]
-    cases hk : x.cls with
-    | stk f => exact hstk f hk
-    | bindNew t => simp [Cls.maturity, bindingLockedPeriod]
-    | std => simp [Cls.maturity]
-    | bindOld t => simp [Cls.maturity]
-    | raw => simp [Cls.maturity]
+  · simp only [hc, if_true]; omega
+  · simp only [hc, Bool.false_eq_true, if_false]; exact hm
+
+/-- the sequence lock of the output's own script, as a bound on the confirmations -/
+theorem seqOK_iff (tip : Nat) (x : SCoin) (h : x.height ≤ tip) :
+    seqOK tip x = true ↔ tip + 1 - x.height ≥ x.cls.maturity := by
+  unfold seqOK
+  cases hk : x.cls with
+  | stk f => simp only [Cls.maturity, decide_eq_true_eq]; omega
+  | bindNew t => simp only [Cls.maturity, decide_eq_true_eq]; omega
+  | std => simp [Cls.maturity]
+  | bindOld t => simp [Cls.maturity]
+  | raw => simp [Cls.maturity]
 
 /-- maturity_iff, every class: the wallet's test `confs ≥ stored maturity` is the consensus rule
-    (coinbase maturity first, then the sequence lock of staking and MASSIP-2 binding outputs) -/
+    (coinbase maturity AND the sequence lock of staking and MASSIP-2 binding outputs) -/
 theorem maturity_iff_scoin (p : Params) (tip : Nat) (x : SCoin) (h : x.height ≤ tip) (ht : tip < 2^32)
     (hcb : p.cbMaturity < 2^32) (hstk : ∀ f, x.cls = .stk f → f + 1 < 2^32) :
-    confs tip x.height ≥ (if x.cb then p.cbMaturity else x.cls.maturity) % 2^32 ↔
+    confs tip x.height ≥ (if x.cb then max p.cbMaturity x.cls.maturity else x.cls.maturity) % 2^32 ↔
       spendableAt p tip x = true := by
   rw [maturity_fits p x hcb hstk, confs_of_le tip x.height h (by omega)]
   unfold spendableAt
+  rw [Bool.and_eq_true, seqOK_iff tip x h]
   by_cases hc : x.cb = true
   · simp only [hc, if_true, decide_eq_true_eq]; omega
-  · simp only [hc, Bool.false_eq_true, if_false]
-    cases hk : x.cls with
-    | stk f => simp only [Cls.maturity, decide_eq_true_eq]; omega
-    | bindNew t => simp only [Cls.maturity, decide_eq_true_eq]; simp only [bindingLockedPeriod]; omega
-    | std => simp [Cls.maturity]
-    | bindOld t => simp [Cls.maturity]
-    | raw => simp [Cls.maturity]
+  · simp only [hc, Bool.false_eq_true, if_false, true_and]; omega
 
 /-- the same for a ledger entry and its stored credit -/
 theorem maturity_iff (p : Params) (tip : Nat) (u : UCoin) (h : u.blk.height ≤ tip) (ht : tip < 2^32)
@@ -190,11 +203,11 @@ theorem obs_eq (H : ObsHyp c s chain) {u : UCoin} (hu : u ∈ (bookOf c.p c.own 
     rw [hc]; apply Nat.mod_eq_of_lt; omega
   unfold obsM obsS
   show CoinObs.mk u.tx u.idx u.out.amt u.blk.height
-      ((if u.cb then c.p.cbMaturity else u.out.cls.maturity) % 2^32)
+      ((if u.cb then max c.p.cbMaturity u.out.cls.maturity else u.out.cls.maturity) % 2^32)
       (confs s.syncedTo u.blk.height % 2^32) u.out.addr = _
   rw [hc']
-  have hm' : (if u.cb then c.p.cbMaturity else u.out.cls.maturity) % 2^32 =
-      (if u.cb then c.p.cbMaturity else u.out.cls.maturity) := hm
+  have hm' : (if u.cb then max c.p.cbMaturity u.out.cls.maturity else u.out.cls.maturity) % 2^32 =
+      (if u.cb then max c.p.cbMaturity u.out.cls.maturity else u.out.cls.maturity) := hm
   rw [hm']
   rfl
 
